@@ -11,6 +11,7 @@ import Driver.TokOps
 import Driver.SpecOps
 import Driver.SerOps
 import Driver.TreeOps
+import Driver.SanOps
 import H5.Model.Walker
 import H5.Model.Sax
 import H5.Model.InjectMeta
@@ -106,7 +107,7 @@ def handle (ws : List String) : String :=
   | op :: rest =>
     if op.startsWith "xml:" then handleXml (op :: rest) else
     -- add-on op files: one `List String → Option String` handler each
-    match [handleTok, handleSpec, handleSer, handleTreeOps].findSome? (fun h => h (op :: rest)) with
+    match [handleTok, handleSpec, handleSer, handleTreeOps, handleSan].findSome? (fun h => h (op :: rest)) with
     | some r => r
     | none => "bad-op"
   | _ => "bad-op"
